@@ -7,6 +7,11 @@ Correspondence: the compiled SOURCE and ARGUMENT LIST, the AST, the imported exp
 meaning of an AST (`denAst`) against the Lean models of lean/PV/Model/Compile.lean.
 Oracles: every generated program is EXECUTED by CPython on exact environments and compared with the
 independent reference interpreter harness/oracles/pyeval.py.
+
+Source text of compile() under Python's grammar (theorems PV.C13.compile_source_groups_*): stream
+`py-table` ties the hand-written Python precedence table of the parser model to CPython's own
+tokenizer and ast.parse; stream `source-groups` checks on the real compile() that every tree inside
+the proved fragment is read by CPython as the tree itself.
 """
 from __future__ import annotations
 
@@ -1108,6 +1113,564 @@ class DenAstStream(Stream):
         return pl["ast"] + pl["env"]
 
 
+# {{{ the compiled SOURCE under Python's grammar (theorems PV.C13.compile_source_groups_*)
+
+def py_tokens(s):
+    """tokens of CPython's own tokenizer in the wire format of the parser model, or None when the
+    tokenizer rejects the text (unbalanced brackets) or a token has no counterpart"""
+    import io
+    import keyword
+    import tokenize
+    out = []
+    try:
+        for t in tokenize.generate_tokens(io.StringIO(s).readline):
+            if t.type in (tokenize.NEWLINE, tokenize.NL, tokenize.ENDMARKER, tokenize.INDENT,
+                          tokenize.DEDENT, tokenize.COMMENT):
+                continue
+            if t.type == tokenize.NUMBER:
+                txt = t.string.replace("_", "")
+                if txt[-1] in "jJ":
+                    out.append(f"(imag {q(txt)})")
+                elif re.fullmatch(r"[0-9]+", txt):
+                    out.append(f"(int {int(txt)})")
+                elif re.fullmatch(r"0[xXoObB][0-9a-fA-F]+", txt):
+                    return None
+                else:
+                    v = float(txt)
+                    if v != v or v in (float("inf"), float("-inf")):
+                        return None
+                    n, d = v.as_integer_ratio()
+                    out.append(f"(flt {q(repr(v))} {n} {d})")
+            elif t.type == tokenize.NAME:
+                if t.string == "True":
+                    out.append("true")
+                elif t.string == "False":
+                    out.append("false")
+                elif keyword.iskeyword(t.string):
+                    out.append(f"(sym {q(t.string)})")
+                else:
+                    out.append(f"(id {q(t.string)})")
+            elif t.type == tokenize.OP:
+                out.append(f"(sym {q(t.string)})")
+            else:
+                return None
+    except (tokenize.TokenError, SyntaxError, IndentationError, ValueError):
+        return None
+    return out
+
+
+_SEP = {"and", "or", "if", "else", ",", ":", "="}
+_CMPS = {"==", "!=", "<", "<=", ">", ">="}
+_BINS = {"+", "-", "*", "/", "//", "%", "**", "<<", ">>", "&", "|", "^", "and", "or", "@"} | _CMPS
+_OPEN = {"(": ")", "[": "]", "{": "}"}
+
+
+def _groups(toks):
+    """nest a flat list of token texts by brackets: items are texts or ('group', open, [items])"""
+    stack = [[]]
+    opens = []
+    for t in toks:
+        if t in _OPEN:
+            stack.append([])
+            opens.append(t)
+        elif t in _OPEN.values():
+            if not opens:
+                return None
+            inner = stack.pop()
+            stack[-1].append(("group", opens.pop(), inner))
+        else:
+            stack[-1].append(t)
+    return stack[0] if len(stack) == 1 else None
+
+
+def _level_excuse(items):
+    """the shapes (on ONE bracket level) that the parser SCHEME cannot read the way Python does,
+    whatever the precedence numbers — see PV.C13.python_table_grouping / python_table_prefix:
+    comparison chains, `not` followed by a tighter binary operator or standing where only an
+    operand of a tighter operator may stand, `*` followed by `/ // %` (the right operand of `*`
+    is read at the level of a sum), a conditional followed by `,` or `:` (its else-branch is
+    read at the lowest level)"""
+    def operand_before(i):
+        return i > 0 and (not isinstance(items[i - 1], str) or
+                          (items[i - 1] not in _BINS and items[i - 1] not in _SEP
+                           and items[i - 1] not in ("not", "~", "lambda")))
+    binary = [isinstance(t, str) and t in _BINS and operand_before(i) for i, t in enumerate(items)]
+    n = len(items)
+    for i, t in enumerate(items):
+        if not isinstance(t, str):
+            continue
+        if t in _CMPS and binary[i]:
+            for j in range(i + 1, n):
+                u = items[j]
+                if isinstance(u, str) and (u in _SEP or u == "not"):
+                    break
+                if isinstance(u, str) and u in _CMPS and binary[j]:
+                    return "chain"
+        if t == "*" and binary[i]:
+            for j in range(i + 1, n):
+                u = items[j]
+                if not isinstance(u, str) or not binary[j]:
+                    if isinstance(u, str) and u in _SEP:
+                        break
+                    continue
+                if u in ("/", "//", "%"):
+                    return "times-division"
+                if u not in ("*", "**"):
+                    break
+        if t == "else":
+            if any(isinstance(u, str) and u in (",", ":") for u in items[i + 1:]):
+                return "else-comma"
+        if t == "not":
+            if i > 0 and not (isinstance(items[i - 1], str) and (items[i - 1] in _SEP or items[i - 1] == "not")):
+                return "not-operand"
+            for j in range(i + 1, n):
+                u = items[j]
+                if isinstance(u, str) and u in _SEP:
+                    break
+                if isinstance(u, str) and binary[j] and u != "**":
+                    return "not-wide"
+    return None
+
+
+def excused(s):
+    """None, or the name of the shape that puts the text outside the strings on which the parser
+    model with the Python table is claimed (and checked) to agree with CPython"""
+    import io
+    import tokenize
+    try:
+        toks = [t.string for t in tokenize.generate_tokens(io.StringIO(s).readline)
+                if t.type in (tokenize.NUMBER, tokenize.NAME, tokenize.OP)]
+    except (tokenize.TokenError, SyntaxError, IndentationError):
+        return "tokenizer"
+    top = _groups(toks)
+    if top is None:
+        return "brackets"
+
+    def walk(items):
+        r = _level_excuse(items)
+        if r is not None:
+            return r
+        for it in items:
+            if not isinstance(it, str):
+                r = walk(it[2])
+                if r is not None:
+                    return r
+        return None
+    return walk(top)
+
+
+def cpython_tree(s):
+    """('tree', wire form of CPython's reading, sums/products flattened) | ('syntax',) | ('foreign',)"""
+    from .c07 import NotShared, py_tree
+    from ..syntax import flatten_assoc
+    try:
+        node = ast.parse(s, mode="eval")
+    except (SyntaxError, ValueError, RecursionError, MemoryError):
+        return ("syntax",)
+    try:
+        return ("tree", dumps(expr_to_sx(flatten_assoc(py_tree(node)))))
+    except (NotShared, Unencodable, TypeError, OverflowError):
+        return ("foreign",)
+
+
+PY_TABLE_EXTRA = [
+    "not a", "not not a", "not a and b", "a and not b", "not a or not b", "x if not a else b",
+    "not a if b else c", "f(not a, not b)", "not a == b", "a == not b", "not a + b", "a + not b",
+    "~not a", "-not a", "not -a", "not ~a", "not a ** b", "not a.b", "not a(b)", "not a[b]",
+    "-a ** b", "~a ** b", "a ** -b", "a ** ~b", "a ** -b ** c", "-a ** -b", "+a", "-+a", "- -a", "~~a",
+    "-a * b", "-a + b", "a * -b", "a / -b", "a - -b", "-a.b ** c", "-f(a) ** 2", "-a[0] ** 2",
+    "a < b < c", "a < b == c", "a < b and b < c", "(a < b) < c", "a < (b < c)", "a < b if c < d else e",
+    "a * b / c", "a * b // c", "a * b % c", "a * b * c", "a / b * c", "a // b * c", "a % b * c",
+    "a * (b / c)", "(a * b) / c", "a * b ** c / d", "a * -b / c", "a * b + c / d", "a / b / c",
+    "a if b else c", "a if b else c if d else e", "a if b if c else d else e", "(a if b else c) if d else e",
+    "a if b else c, d", "(a if b else c, d)", "f(a if b else c, d)", "f(a if b else c)", "f(d, a if b else c)",
+    "f(a, k=b if c else d, l=e)", "f(a, k=b if c else d)", "a[b if c else d]", "a[b if c else d, e]",
+    "a or b if c else d", "a if b or c else d", "a if b else c or d",
+    "a | b ^ c & d", "a & b ^ c | d", "a | b | c", "a ^ b ^ c", "a & b & c", "a & b == c", "a == b & c",
+    "a | b == c", "a == b | c", "a ^ b == c", "a << b + c", "a + b << c", "a << b << c", "a & b << c",
+    "a and b and c", "a or b or c", "a or b and c", "a and b or c",
+    "a, b", "(a, b)", "(a,)", "()", "a,", "f()", "f(a,)", "f(a)(b)", "a.b.c(d)[e]", "a[b, c]", "a[b][c]",
+    "f(a, k=b)", "f(k=a, l=b)", "(a + b) * c", "a * (b + c)", "a ** (b ** c)", "(a ** b) ** c", "a ** b ** c",
+    "2 ** -1", "-2 ** 2", "(-2) ** 2", "-2 * a", "a * -2", "a - 2", "a - -2", "1.5 * a", "1e-05 + a",
+    "1e+20 * a", "True and a", "a == True", "-True", "a b", "a +", "(a", "a)", "a + * b", "f(a,, b)",
+    "f(a b)", "a[", "a if b", "a if b else", "", "(", "a.", "1 +", "f(k=1, 2)", "not", "a not b",
+]
+
+
+class PyTableStream(Stream):
+    """THE TIE OF THE PYTHON TABLE: the parser model run with `PV.C13.pythonPrec` on the tokens of
+    CPython's tokenizer vs CPython's own `ast.parse` (converted by harness/props/c07.py: py_tree,
+    not by the code under test) — exhaustively on all skeletons with at most two operators, a
+    sample (thorough: all) of the three-operator skeletons, and random deeper strings with random
+    parentheses.  Strings of the shapes the parser SCHEME cannot express (`excused`) are counted,
+    not compared.  No code of /repo is involved: a disagreement means the table (or the list of
+    excluded shapes) is wrong."""
+    name = "py-table"
+
+    def cases(self, rng, tier):
+        from .c07 import rand_string, skeletons2, skeletons3
+        for s, k in skeletons2():
+            yield {"text": s, "kind": k[0]}
+        for s in PY_TABLE_EXTRA:
+            yield {"text": s, "kind": "directed"}
+        sk3 = list(skeletons3())
+        for s, k in (sk3 if tier != "quick" else rng.sample(sk3, 1200)):
+            yield {"text": s, "kind": k[0]}
+        for _ in range(2000 if tier == "quick" else 60000):
+            yield {"text": rand_string(rng, rng.randint(2, 6)), "kind": "random"}
+        # the same inside brackets: arguments, keyword values, tuples, lists of indices, callees
+        wraps = ["f({0}, {1})", "({0}, {1})", "{0}, {1}", "v[{0}]", "v[{0}, {1}]", "f({0}, k={1})",
+                 "f(k={0}, l={1})", "({0})({1})", "({0}).u", "({0})[{1}]", "f({0})", "({0},)",
+                 "g(({0}), {1})", "-({0})", "~({0})", "not ({0})", "({0}) ** ({1})", "({0}) * {1}",
+                 "{0} if ({1}) else {0}", "f({0} if {1} else {0})", "f(({0} if {1} else {0}), {1})"]
+        for _ in range(700 if tier == "quick" else 20000):
+            w = rng.choice(wraps)
+            yield {"text": w.format(rand_string(rng, rng.randint(0, 3)), rand_string(rng, rng.randint(0, 3))),
+                   "kind": "bracketed"}
+
+    def request(self, pl):
+        toks = py_tokens(pl["text"])
+        if toks is None:
+            return "(c13-pyparse ((sym \"$tokenizer-rejects$\")))"
+        return f"(c13-pyparse ({' '.join(toks)}))"
+
+    def run_impl(self, pl):
+        r = cpython_tree(pl["text"])
+        return r[1] if r[0] == "tree" else f"({r[0]})"
+
+    def agree(self, model, impl, pl):
+        if py_tokens(pl["text"]) is None or impl == "(foreign)" or "(noclaim)" in model:
+            return "trivial"
+        if excused(pl["text"]) is not None:
+            return "trivial"
+        if impl == "(syntax)":
+            return "ok" if model.startswith("(err") else "diff"
+        if model == "(err TypeError)":
+            return "trivial"           # Python raises when the text is evaluated: -(a, b)
+        return "ok" if model == impl else "diff"
+
+    def nontrivial_key(self, pl, model, impl):
+        return pl["text"] if not impl.startswith("(syntax") else None
+
+    def stats(self, pl, mo, io, acc):
+        acc[pl["kind"]] = acc.get(pl["kind"], 0) + 1
+        ex = excused(pl["text"])
+        if ex is not None:
+            acc.setdefault("excluded", {})
+            acc["excluded"][ex] = acc["excluded"].get(ex, 0) + 1
+            same = (mo == io) or (io == "(syntax)" and mo is not None and mo.startswith("(err"))
+            if same:
+                acc["excluded-but-equal"] = acc.get("excluded-but-equal", 0) + 1
+
+
+def _close(a, b):
+    """same value, floats up to rounding (a regrouped float computation differs in the last bits)"""
+    if isinstance(a, (tuple, list)) and isinstance(b, (tuple, list)):
+        return len(a) == len(b) and all(_close(x, y) for x, y in zip(a, b))
+    if isinstance(a, App) or isinstance(b, App):
+        return isinstance(a, App) and isinstance(b, App) and a.f == b.f and _close(a.args, b.args) \
+            and a.kw.keys() == b.kw.keys() and all(_close(a.kw[k], b.kw[k]) for k in a.kw)
+    if isinstance(a, (float, complex)) or isinstance(b, (float, complex)):
+        try:
+            fa, fb = complex(a), complex(b)
+        except Exception:
+            return False
+        if fa != fa or fb != fb:
+            return (fa != fa) == (fb != fb)
+        return abs(fa - fb) <= 1e-6 * max(1.0, abs(fa), abs(fb))
+    return same_exact(a, b)
+
+
+def grouping_witness(e, t, envs):
+    """(env, what, reference outcome) such that (1) the evaluator's value of `e` is well defined,
+    (2) the tree `t` CPython reads from the compiled source has ANOTHER value under the same
+    reference interpreter (or the source does not parse: t is None) — so the difference is due to
+    the grouping, not to what an operator computes —, and (3) the REAL compiled callable does not
+    return the evaluator's value.  Floats are compared up to rounding (a sign or an operand
+    moved to another operator is not a rounding effect)."""
+    for env in envs:
+        if not is_safe(e, env):
+            continue
+        ref = outcome(lambda: pyeval(e, env))
+        if ref[0] == "err" and ref[1] not in ARITH:
+            continue
+        if t is not None:
+            if not is_safe(t, env):
+                continue
+            alt = outcome(lambda: pyeval(t, env))
+            if alt[0] == ref[0] and (_close(alt[1], ref[1]) if ref[0] == "ok" else alt[1] == ref[1]):
+                continue
+        got = outcome(lambda: run_compiled(e, env))
+        if got[0] == "err" and got[1] == "Refused":
+            return None
+        if got[0] == "err" and got[1] == "SyntaxError":
+            if ref[0] == "ok":
+                return env, "does not parse", ref
+            continue
+        if ref[0] == "ok":
+            if got[0] != "ok":
+                return env, f"raises {got[1]} instead of returning {ref[1]!r}", ref
+            if not _close(ref[1], got[1]):
+                return env, f"returns {got[1]!r} instead of {ref[1]!r}", ref
+        elif got[0] == "ok" or got[1] != ref[1]:
+            return env, (f"returns {got[1]!r}" if got[0] == "ok" else f"raises {got[1]}") \
+                + f" instead of raising {ref[1]}", ref
+    return None
+
+
+def _minmax_as_calls(e):
+    """`Min` / `Max` are printed as calls of Python's `min` / `max`: that reading is the intended
+    one (what the calls compute is the business of the executing oracle)"""
+    import dataclasses
+    if isinstance(e, tuple):
+        return tuple(_minmax_as_calls(c) for c in e)
+    if isinstance(e, (p.Min, p.Max)):
+        return p.Call(p.Variable("min" if isinstance(e, p.Min) else "max"),
+                      tuple(_minmax_as_calls(c) for c in e.children))
+    if not isinstance(e, p.Expression) or not dataclasses.is_dataclass(e):
+        return e
+    kw = {}
+    for f in dataclasses.fields(e):
+        v = getattr(e, f.name)
+        if isinstance(v, tuple) and f.name in ("children", "parameters", "values"):
+            kw[f.name] = tuple(None if c is None else _minmax_as_calls(c) for c in v)
+        elif hasattr(v, "items"):
+            kw[f.name] = {k: _minmax_as_calls(c) for k, c in v.items()}
+        elif isinstance(v, (p.Expression, tuple)):
+            kw[f.name] = _minmax_as_calls(v)
+        else:
+            kw[f.name] = v
+    return type(e)(**kw)
+
+
+def _printed_shape(e):
+    """shapes the printer does not distinguish and that have nothing to do with grouping (C06
+    findings one-tuple-index, no-keywords): `a[(x,)]` prints as `a[x]`, a keyword call without
+    keywords as a plain call"""
+    import dataclasses
+    if isinstance(e, tuple):
+        return tuple(_printed_shape(c) for c in e)
+    if not isinstance(e, p.Expression) or not dataclasses.is_dataclass(e):
+        return e
+    if isinstance(e, p.Subscript) and isinstance(e.index, tuple) and len(e.index) == 1:
+        return p.Subscript(_printed_shape(e.aggregate), _printed_shape(e.index[0]))
+    if isinstance(e, p.CallWithKwargs) and not e.kw_parameters:
+        return p.Call(_printed_shape(e.function), tuple(_printed_shape(c) for c in e.parameters))
+    kw = {}
+    for f in dataclasses.fields(e):
+        v = getattr(e, f.name)
+        if isinstance(v, tuple) and f.name in ("children", "parameters", "values"):
+            kw[f.name] = tuple(None if c is None else _printed_shape(c) for c in v)
+        elif hasattr(v, "items"):
+            kw[f.name] = {k: _printed_shape(c) for k, c in v.items()}
+        elif isinstance(v, (p.Expression, tuple)):
+            kw[f.name] = _printed_shape(v)
+        else:
+            kw[f.name] = v
+    return type(e)(**kw)
+
+
+def source_reading(e):
+    """(source text, CPython's reading) of the REAL compiled source: 'same' when CPython's tree is
+    the expression once nested sums and products are flattened, 'assoc' when it is the expression
+    once EVERY associative n-ary operator is flattened (regrouping those does not change an exact
+    value), 'regrouped' + tree otherwise, 'syntax', 'foreign' (a node type outside py_tree:
+    slices, lists, strings)"""
+    from pymbolic.compiler import CompileMapper
+    from pymbolic.mapper.stringifier import PREC_NONE
+    from .c06 import normalize_all
+    from .c07 import NotShared, py_tree
+    from ..syntax import flatten_assoc
+    src = CompileMapper()(e, PREC_NONE)
+    try:
+        node = ast.parse(src, mode="eval")
+    except SyntaxError:
+        return src, "syntax", None
+    try:
+        t = py_tree(node)
+    except NotShared:
+        return src, "foreign", None
+    want = _printed_shape(_minmax_as_calls(e))
+    if flatten_assoc(t) == flatten_assoc(want):
+        return src, "same", t
+    if normalize_all(t) == normalize_all(want):
+        return src, "assoc", t
+    return src, "regrouped", t
+
+
+def _mentions_foreign(e):
+    return any(isinstance(s, (p.Slice, list, str, complex, p.CommonSubexpression, p.Substitution,
+                              p.Derivative, p.NaN, p.Wildcard, p.DotWildcard, p.StarWildcard,
+                              p.FunctionSymbol)) or s is None for s in scan.subterms(e))
+
+
+def _postorder(e):
+    for c in syntax_children(e):
+        if isinstance(c, (p.Expression, tuple)):
+            yield from _postorder(c)
+    yield e
+
+
+def misread(s):
+    """CPython rejects the compiled source of `s` or groups it differently (beyond regrouping an
+    associative operator)"""
+    if not isinstance(s, (p.Expression, tuple)) or _mentions_foreign(s):
+        return False
+    try:
+        return source_reading(s)[1] in ("syntax", "regrouped")
+    except RecursionError:
+        raise
+    except Exception:
+        return False
+
+
+def _printed(c):
+    """a one-operand n-ary node prints as its operand: name what is really printed"""
+    while isinstance(c, NARY) and len(c.children) == 1:
+        c = c.children[0]
+    return c
+
+
+def grouping_key(e):
+    """(key, m): m = a smallest misread subterm of e; key = its node type > the type of the first
+    child that is misread in m on its own (all other non-variable children replaced by plain
+    variables), else of the first child whose replacement repairs the reading (a structural
+    classification: no environment is involved)"""
+    m = minimal_failing_subterm(e, misread)
+    if m is None:
+        m = e
+    kids = [(path, c) for depth, path, _par, c in edges(m) if depth == 0 and not isinstance(c, p.Variable)]
+    for path, c in kids:
+        try:
+            m2 = m
+            for i, (path2, d) in enumerate(kids):
+                if path2 != path and isinstance(d, (p.Expression, tuple)):
+                    m2 = replace_at(m2, path2, p.Variable(f"q{i}"))
+            if misread(m2):
+                return f"compile:{kind(m)}>{child_name(_printed(c))}", m
+        except RecursionError:
+            raise
+        except Exception:
+            pass
+    for path, c in kids:
+        try:
+            if not misread(replace_at(m, path, p.Variable("q11"))):
+                return f"compile:{kind(m)}>{child_name(_printed(c))}", m
+        except RecursionError:
+            raise
+        except Exception:
+            pass
+    return f"compile:{kind(m)}", m
+
+
+class SourceGroupsStream(Stream):
+    """the fragment of `PV.C13.compile_source_groups_current` against the REAL compile():
+    model side: is the tree in the fragment, the token list of the compiled source, what the
+    parser model with the Python table makes of it; real side: CompileMapper's text tokenised by
+    CPython and parsed by CPython.  A tree INSIDE the proved fragment must be read by CPython as
+    the tree itself (modulo flattening of sums and products), its text must tokenise to the
+    model's token list and must avoid the shapes excluded from the `py-table` tie.  Oracle: when
+    CPython groups the source differently, an environment is searched in which the compiled
+    callable and the evaluator differ."""
+    name = "source-groups"
+
+    def cases(self, rng, tier):
+        n = 1 if tier == "quick" else 12
+        for src, e in gen_exprs(rng, tier, 900 * n, 900 * n, cse=0.0, three=600 * n):
+            s = encodable(e)
+            if s is not None:
+                yield {"expr": s, "envs": envs_payload(rng, 1), "src": src}
+        a, b, c = (p.Variable(n_) for n_ in "abc")
+        for e in [p.Power(-2, a), p.Power(-2.5, a), p.Power(a, -2), p.Product((-1, a)), p.Product((a, -3)),
+                  p.Quotient(-1, a), p.Sum((a, -1)), p.Comparison(a, "<", -1), p.BitwiseNot(-2),
+                  p.BitwiseNot(p.Power(a, b)), p.LogicalNot(p.Power(a, b)), p.LogicalNot(p.LogicalNot(a)),
+                  p.Call(a, (p.If(a, b, c), b)), p.Call(a, (b, p.If(a, b, c))),
+                  p.BitwiseAnd((a, p.BitwiseAnd((b, c)))), p.BitwiseAnd((p.BitwiseAnd((a, b)), c)),
+                  p.LogicalAnd((a, p.LogicalAnd((b, c)))), p.Sum((a, p.Sum((b, c)))),
+                  p.Product((p.Product((a, b)), c)), p.Power(1e-05, a), p.Power(a, 1e-05),
+                  p.Lookup(-2.5, "real"), p.Sum((1e+20, a)), p.Product((a, 1e-05))]:
+            yield {"expr": dumps(expr_to_sx(e)), "envs": envs_payload(rng, 1), "src": "directed"}
+
+    def request(self, pl):
+        return f"(c13-groups {pl['expr']})"
+
+    def run_impl(self, pl):
+        e = sx_to_expr(loads(pl["expr"]))
+        try:
+            src, how, _t = source_reading(e)
+        except RecursionError:
+            raise
+        except Exception as ex:
+            return f"(noprint {type(ex).__name__})"
+        toks = py_tokens(src)
+        ex = excused(src)
+        return dumps([A("real"), A(how), src, A("none") if toks is None else [loads(t) for t in toks],
+                      A("plain") if ex is None else A(ex)])
+
+    def agree(self, model, impl, pl):
+        m = loads(model)
+        if not (isinstance(m, list) and m and m[0] == "groups") or impl.startswith("(noprint"):
+            return "trivial"
+        r = loads(impl)
+        frag, msrc, mtoks, back = m[1], m[2], m[3], m[4]
+        how, src, toks, shape = r[1], r[2], r[3], r[4]
+        if msrc != src:
+            return "diff"                      # the model's source text is the real one
+        if toks != "none" and dumps(toks) != dumps(mtoks):
+            return "diff"                      # CPython's tokenizer yields the model's token list
+        if frag in ("in", "flat"):
+            if how == "foreign":
+                return "trivial"
+            # the theorem's conclusion on the model, CPython's reading, and the text inside the
+            # tied domain of the `py-table` stream
+            return "ok" if (back == "same" and how == "same" and shape == "plain") else "diff"
+        return "trivial"
+
+    def oracle(self, pl):
+        e = sx_to_expr(loads(pl["expr"]))
+        if not misread(e):
+            return None
+        envs = [load_env(es) for es in pl["envs"]] + BOX
+        # the smallest misread subterm whose misreading changes a value (children first)
+        seen = set()
+        for m in _postorder(e):
+            if id(m) in seen or not misread(m):
+                continue
+            seen.add(id(m))
+            srcm, howm, tm = source_reading(m)
+            w = grouping_witness(m, tm, envs)
+            if w is None:
+                continue
+            env_m, why_m, _ref = w
+            key, small = grouping_key(m)
+            srcs, hows, ts = source_reading(small)
+            at = {n_: env_m[n_] for n_ in free_names(m)
+                  if n_ in env_m and isinstance(env_m[n_], (int, float, Fraction, tuple))}
+            return Failure(key, f"compile({small!r}) has the source {srcs!r}, which Python "
+                           + ("rejects" if hows == "syntax" else f"reads as {ts!r}")
+                           + f"; at {at!r} the compiled function"
+                           + ("" if small is m else f" of {m!r}") + f" {why_m}",
+                           {**pl, "expr": dumps(expr_to_sx(m)), "envs": [dumps(env_to_sx(env_m))]})
+        return None                              # regrouped, but no value differs: nothing to report
+
+    def shrink(self, pl):
+        return ()
+
+    def nontrivial_key(self, pl, model, impl):
+        return pl["expr"] if model.startswith("(groups in") or model.startswith("(groups flat") else None
+
+    def stats(self, pl, mo, io, acc):
+        if mo is None or not mo.startswith("(groups"):
+            acc["noclaim"] = acc.get("noclaim", 0) + 1
+            return
+        frag = mo.split(" ")[1]
+        how = io.split(" ")[1] if io.startswith("(real") else "noprint"
+        k = f"{frag}/{how}"
+        acc[k] = acc.get(k, 0) + 1
+
+# }}}
+
+
 def probes():
     from pymbolic import compile as pcompile, evaluate
     from pymbolic.interop.ast import (ASTToPymbolic, to_evaluatable_python_function,
@@ -1164,6 +1727,13 @@ def probes():
         fl = cs.oracle(pl)
         if fl is not None:
             res.append((fl.key, True, fl.detail))
+    sg = SourceGroupsStream()
+    for e in [p.Power(-2.5, a), p.Power(-2, a), p.Comparison(p.LogicalNot(a), "==", b),
+              p.BitwiseNot(p.LogicalNot(a))]:
+        pl = {"expr": dumps(expr_to_sx(e)), "src": "probe", "envs": [dumps(env_to_sx({"a": 2, "b": 3}))]}
+        fl = sg.oracle(pl)
+        if fl is not None:
+            res.append((fl.key, True, fl.detail))
     ts = ToAstStream()
     for e in [p.LogicalAnd((a, b)), p.LogicalOr((a, b))]:
         pl = {"expr": dumps(expr_to_sx(e)), "src": "probe",
@@ -1183,17 +1753,36 @@ PROP = Prop(
              "two or more boolean operands (Python returns an operand; a one-value BoolOp is "
              "rejected by CPython), a one-operand sum/product must not be a bool, operands of + * "
              "are exact numbers and of | ^ & ints/bools (else a different error can surface); "
-             "keyword calls, floats, slices: executing oracle only.  The compile path (source TEXT "
-             "read by CPython) has no theorem of this kind: Python's grammar is not modelled, every "
-             "generated program is executed instead"},
+             "keyword calls, floats, slices: executing oracle only",
+             "PV.C13.compile_source_groups_partial":
+             "the compiled SOURCE TEXT groups, under any parser table, the way the tree does on the "
+             "decidable fragment C13R.InFragment (covered node shapes: n-ary | ^ & and or with two "
+             "operands, sums/products with two or more; every child passes the local condition; "
+             "source_bad_pairs_current lists the 42 failing (position, child class) pairs for the "
+             "Python table: the known findings compile:<Parent>>LogicalNot and "
+             "compile:Power>negative-int/float, plus value-preserving regroupings and limits of the "
+             "parser scheme).  Python's grammar itself is the hand-written table PV.C13.pythonPrec, "
+             "tied to CPython's ast.parse by the stream py-table outside four excluded shapes "
+             "(comparison chains, `not` before a tighter operator, `*` followed by `/ // %`, an "
+             "else-branch followed by `,` or `:`), none of which occurs in a source of the fragment "
+             "(checked per case by the stream source-groups).  What the grouped operators COMPUTE "
+             "(and/or returning operands, min/max) stays with the executing oracle",
+             "PV.C13.compile_source_groups_flat_partial": "the same with nested sums and products",
+             "PV.C13.compile_source_groups_via_str_partial":
+             "the literal instance of C06.roundtrip_partial: needs every signed constant in a "
+             "position where str prints it bare"},
     extractors=[extract],
     streams=[CompileStream(), ArgOrderStream(), ToAstStream(), FunctionSourceStream(),
-             RoundTripStream(), FromAstStream(), DenAstStream()],
+             RoundTripStream(), FromAstStream(), DenAstStream(), PyTableStream(),
+             SourceGroupsStream()],
     probes=[probes],
     trusted_base=["Lean 4.33 kernel; axioms propext, Classical.choice, Quot.sound only",
                   "CPython (eval, compile, ast.unparse, pickle) executes the generated programs: "
                   "tied by running them, not modelled (the model's meaning of an AST, denAst, is "
                   "compared with CPython on every run)",
+                  "Python's expression grammar = the parser model of C06/C07 run with the hand-written "
+                  "table PV.C13.pythonPrec: tied to CPython's tokenizer and ast.parse on every run "
+                  "(streams py-table, source-groups; converter harness/props/c07.py: py_tree)",
                   "harness/oracles/pyeval.py (independent reference interpreter)",
                   "extract/prec.py (stringifier precedences read from the live module)"],
     assumptions=["exact environments (int, bool, Fraction, tuples, uninterpreted functions); "
